@@ -64,7 +64,7 @@ def wlist(rng, W, prefix, named):
     out = []
     mark = prefix + rng.choice("*#")
     for _ in range(rng.randint(1, 4)):
-        out.append(mark + " " + inline(rng, W, 1, named=named))
+        out.append(mark + " " + W() + " " + inline(rng, W, 1, named=named))   # an item always carries a plain word
         if len(mark) < 3 and rng.random() < 0.3:
             out.extend(wlist(rng, W, mark, named))
     return out
@@ -102,7 +102,7 @@ def block(rng, W, named):
 
 def section(rng, W, level, named, budget):
     out = ["=" * level + " " + W.some(rng, 1, 3) + " " + "=" * level]
-    out.extend([inline(rng, W, named=named), ""])          # every section has body text
+    out.extend([W.some(rng, 1, 2) + " " + inline(rng, W, named=named), ""])          # every section has body text (plain words)
     for _ in range(rng.randint(0, 2)):
         out.extend(block(rng, W, named))
     while level < 4 and budget[0] > 0 and rng.random() < 0.4:
